@@ -12,7 +12,7 @@ BASE_NOTE = ("Trusted base: rustc nightly's type checker, MIR construction and I
 
 CLAIMS = {
     "C02": ("durability/ordering protocol + error discipline (MUSTPASS/ORDER/GUARDED/ORIGIN over MIR CFGs); re-evaluates the manifest reader/replay/rollover rules C13.1/5/6",
-            "Decides the protocol shape that crash safety needs on every path: ack only after the covering fdatasync, SST "
+            "Decides the protocol shape that crash safety needs on every path: ack only after the covering fdatasync (the coalesced token is the maximum offset under every ordering), SST "
             "sync before use, manifest write<flush<sync<rollover, link<manifest<install, log retired last and only on the Ok edge of the ingest, no storage error "
             "dropped or unwrapped, no truncating open of data files.  Does not enumerate crash states.", "§4 C02"),
     "C09": ("checksum-gate dominance, sanity-gate chain, bounded-allocation slice, R-ERR + explicit-panic audit + implicit-bounds audit (array-bounds dataflow on byte buffers) over REACH(read entry points)",
@@ -85,7 +85,8 @@ CLAIMS = {
             "compaction input closure, the rest of recovery level assignment, bloom/block search arithmetic.", "§4 C01"),
     "C03": ("ORIGIN chains (pipeline composition), loop-body MUSTPASS (every file wrapped and merged), GUARDED (overlap skip) plus the overlap predicate's decision table over (bound kinds x key order) read from MIR, HELD (snapshot capture); re-evaluates C11.1/4/5/6, C06.3/5, C05.5",
             "Decides pipeline composition: every scan is Bounds(Pruning(Merging(components))) with the captured timestamp and "
-            "the caller's bounds, no component (mem, imm, any L0 file, any overlapping deeper file) can be left out, the snapshot "
+            "the caller's bounds, no component (mem, imm, any L0 file, any overlapping deeper file) can be left out -- files are skipped only by the "
+            "overlap test, never by an iterator adaptor or a sub-slice --, the snapshot "
             "is captured atomically, exhaustion is tested through key().  Does not decide ordering/exactly-once/seek landing.", "§4 C03"),
     "C11": ("SIBLINGS forwarding tables and mirror-image rules (bounds next/prev, concat seek/next/prev, pruning seek/next), GUARDED key-before-value tests, ORDER on the merging cursor's direction switch",
             "Decides sibling consistency of the combinators: value() presence tests are tombstone tests (key known Some), wrappers "
@@ -104,17 +105,20 @@ CLAIMS = {
             "dereferenced, the successor is stored into a new node before every linking CAS (on each retry, same observed value), "
             "levels are linked bottom-up starting at level 0, raw derefs only in node_ptr::deref, frees only in the last owner's Drop.  Does not decide lost inserts or ordered "
             "iteration under every interleaving.", "§4 C17"),
-    "C14": ("constructor-discipline ORIGIN (with &mut-fill detection), operator table ORDER/MUSTPASS, const evaluation of SETSUM_PRIMES (primality), framing constants read from MIR",
+    "C14": ("constructor-discipline ORIGIN (with &mut-fill detection), operator table ORDER/MUSTPASS, const evaluation of SETSUM_PRIMES (primality), framing constants read from MIR, loop totality (iterator type, per-iteration store MUSTPASS, no early exit) of the column loops",
             "Decides the representation-invariant discipline the algebra needs: every Setsum state comes from zero, add_state or "
             "the reducing conversion; inverted states only feed add_state; each operator reaches the right primitives with the "
             "right operands; the moduli are 8 distinct primes in (2^31, 2^32); puts and tombstones are framed with distinct tags "
-            "plus key and timestamp.  Does not decide the algebraic laws over values or agreement with the published definition.", "§4 C14"),
-    "C15": ("field tables read from the macro-expanded MIR of every derived message (pack/pack_sz/stream/unpack agreement, WIRE_TYPE consts), TABLE reading of WireType tables, explicit-panic audit + R-ERR + implicit-bounds audit (array-bounds dataflow with same-buffer guards, interprocedural precondition of the unrolled varint decoder) over REACH(decoders)",
+            "plus key and timestamp; the column loops of add_state / invert_state / hash_to_state visit every column (no element-dropping iterator, a "
+            "store in every iteration, no early exit) and invert_state stores prime[i] - column[i] for the same i.  Does not decide the algebraic laws over values or agreement with the published definition.", "§4 C14"),
+    "C15": ("field tables read from the macro-expanded MIR of every derived message (pack/pack_sz/stream/unpack agreement, WIRE_TYPE consts), TABLE reading of WireType tables, explicit-panic audit + R-ERR + implicit-bounds audit (array-bounds dataflow with same-buffer guards, interprocedural precondition of the unrolled varint decoder) over REACH(decoders); SIBLINGS pack/pack_sz delegation agreement with exact piecewise tabulation of a non-delegating Tag::pack_sz",
             "Decides table agreement and panic-freedom of explicit constructs: the derived encoders and decoder of each message "
             "mention the same (number, type, field) set with the type's wire type, numbers are unique, unknown fields are skipped; "
             "the wire-type tables are inverse; tags pack/unpack with << 3 | and >> 3 & 7 through validating constructors; no "
             "explicit panic or dropped error is reachable from a decoder, and every index / slice expression on the decode path "
-            "is in range by a dominating comparison with the length of the same buffer (7 excepted sites with reasons).  Does "
+            "is in range by a dominating comparison with the length of the same buffer (7 excepted sites with reasons); every hand-written "
+            "Packable impl sizes through pack_sz each concrete component it writes through pack (a Tag::pack_sz that sizes the tag itself is "
+            "tabulated over all valid field numbers against the varint length).  Does "
             "not decide round-trip equality or integer-overflow panics.", "§4 C15, §9.1"),
     "C16": ("TABLE reading of to/from_discriminant (inverse bijection < 16), const evaluation of tuple_key2 tag ranges, exhaustive evaluation over u8 of the descending byte map read from MIR, explicit-panic audit + implicit-bounds audit with an inductive offset <= len type invariant over REACH(decoders)",
             "Claims only: the decoders of both formats reach no explicit panic construct and index their buffers in range (parser "
@@ -129,7 +133,9 @@ CLAIMS = {
             "filter < final block < flush < sync; size constants bound the encoded sizes of their messages and the trailer is "
             "the last packed fixed64; a block seek ends on a restart-anchored scan; the dividing key between two blocks is shortened "
             "only on paths whose comparisons imply it stays below the next block's first key (path-wise guard proof) and otherwise is "
-            "the left key with its own timestamp.  Does not decide enumeration/seek/lookup correctness of the cursors.", "§4 C10"),
+            "the left key with its own timestamp; prefix compression is produced and consumed consistently (restart stores the key whole and records "
+            "the offset of the entry it precedes, the shared length comes from a scan bounded by both keys comparing the same position, "
+            "writer and reader both truncate to `shared` then append the fragment of the same entry).  Does not decide enumeration/seek/lookup correctness of the cursors.", "§4 C10"),
     "C19": ("writer/reader table agreement of the serialised index: TABLE reading of the derived stub decoders' (number, wire type) switch trees vs. the field numbers and append kinds of the hand-written Builder writers (ORIGIN of builder receivers through helpers and sub-builder scopes), Tag constants of hand-written readers",
             "Decides ONE clause of C19, `serialising and re-parsing the index changes nothing`, and of that only its structural "
             "necessary condition: every field-by-field index writer emits exactly the (field number, wire type) set its reader's "
